@@ -51,6 +51,7 @@ CONSTANTS
   FIXWRAP = {fixwrap}
   FIXHOPS = TRUE
   FIXOHEXP = TRUE
+  FIXOHFLG = TRUE
   FIXOHSEC = TRUE
   XorAcc <- SymXor
   MAXLEN = {maxlen}
@@ -70,6 +71,7 @@ CONSTANTS
   FIXWRAP = TRUE
   FIXHOPS = TRUE
   FIXOHEXP = TRUE
+  FIXOHFLG = TRUE
   FIXOHSEC = TRUE
   XorAcc <- SymXor
   MINLEN = 2
@@ -77,7 +79,7 @@ CONSTANTS
   MAXSEG = {maxseg}
   GEN = {gen}
   BROKEN = "{broken}"
-INVARIANTS AuthenticVerifies TamperDetectedAtOwner StepsBounded Emit
+INVARIANTS OneHopVerifies AuthenticVerifies TamperDetectedAtOwner StepsBounded Emit
 """
 
 
@@ -88,6 +90,8 @@ def cfg(c, name, text):
 
 
 def cell_key(cell):
+    if cell.get("kind") == "onehop":
+        return "one-hop journey segid %s exp %s" % (cell.get("segid"), cell.get("exp"))
     if cell.get("kind") == "double":
         return "double-flips %s" % "".join(("c" if p["cd"] else "r") + str(p["n"]) for p in cell["pieces"])
     if cell.get("kind") == "walk":
@@ -109,7 +113,9 @@ def replay_cases(c, binp, cases, tag):
         for line, case in zip(f, cases):
             res = json.loads(line)
             st["cases"] += 1
-            if case.get("kind") == "double":
+            if case.get("kind") == "onehop":
+                st["onehop_journeys"] = st.get("onehop_journeys", 0) + 1
+            elif case.get("kind") == "double":
                 st["double_flip_pairs"] = st.get("double_flip_pairs", 0) + res.get("flips", 0)
                 st["nontrivial"] += 1
             elif case.get("kind") == "walk":
@@ -275,7 +281,9 @@ def run(c):
     doubles = [{"kind": "double", "pieces": [P(2, True), P(2, False)]}, {"kind": "double", "pieces": [P(3, False)]}]
     if thorough:
         doubles += [{"kind": "double", "pieces": [P(2, False), P(2, True), P(2, True)]}, {"kind": "double", "pieces": [P(3, True), P(2, False)]}]
-    st = replay_cases(c, binp, cells + walks + doubles, "all")
+    # one-hop journeys (PathWalk!OneHopVerifies) with a few SegID / ExpTime values
+    ohj = [{"kind": "onehop", "segid": sg, "exp": e} for sg in (0, 1, 0x8000, 0xffff, 0x1234) for e in (0, 63, 255)]
+    st = replay_cases(c, binp, cells + walks + doubles + ohj, "all")
     need = ["ing_int:ok:egress", "ing_int:ok:local", "ing_ext:ok:egress", "ing_ext:ok:local", "egr:ok:egress",
             "egr:err:final_hop", "egr:err:segment_end", "ing_ext:err:single_hop_segment", "ing_ext:err:segment_mismatch",
             "ing_ext:err:hop_oob", "ing_ext:err:info_oob", "walk:authentic", "walk:tamper-mac", "walk:tamper-sid", "walk:tamper-ts"]
